@@ -39,7 +39,19 @@ func kNorm(c J) interface{} {
 	for r := 0; r < repeat; r++ {
 		shuffleSeed = uint64(r) * 0x9E3779B97F4A7C15
 		opts := buildOpts(c["opts"])
-		cfg, err := ucfg.NewFrom(buildValue(c["from"]), opts...)
+		var cfg *ucfg.Config
+		var err error
+		if c["base"] != nil {
+			// the source is merged into an existing config
+			shuffleSeed = 0
+			cfg, err = ucfg.NewFrom(buildValue(c["base"]), buildOpts(c["bopts"])...)
+			shuffleSeed = uint64(r) * 0x9E3779B97F4A7C15
+			if err == nil {
+				err = cfg.Merge(buildValue(c["from"]), opts...)
+			}
+		} else {
+			cfg, err = ucfg.NewFrom(buildValue(c["from"]), opts...)
+		}
 		var v interface{}
 		if err != nil {
 			e := canonErr(err).(J)["err"].(J)
